@@ -231,7 +231,11 @@ impl<'a> Ctx<'a> {
 		// the same file arriving in short reads: still read, still written back identically
 		let frag = if self.built.bytes.len() % 2 == 0 { crate::stream::Frag::RandomIntr(self.built.bytes.len() as u64) } else { crate::stream::Frag::Fixed(1 + self.built.bytes.len() % 6) };
 		let mut r = crate::stream::FragReader::new(&self.built.bytes, frag.clone());
-		match guard(|| slippi::read(&mut r, None)) {
+		// (and the stream can only move forward: a full read has no reason to seek anywhere else)
+		r.forward_only = true;
+		// (every other file with the hash requested: the bytes then pass through the hashing wrapper)
+		let fopts = slippi::de::Opts { skip_frames: false, compute_hash: self.built.bytes.len() % 4 < 2, debug: None };
+		match guard(|| slippi::read(&mut r, Some(&fopts))) {
 			Outcome::Ok(g2) => match real::write_slp(&g2) {
 				Outcome::Ok(w) => {
 					if let Some(i) = first_diff(&w, &self.built.bytes) {
@@ -720,6 +724,17 @@ impl<'a> Ctx<'a> {
 			}
 			variants.push((format!("multi{}", k), v));
 		}
+		// two and three unknown events after a single Game End
+		if self.beh.file_end == "single" {
+			for k in 2..=3usize {
+				let mut v = evs.clone();
+				for j in 0..k {
+					v.push(unk(if j % 2 == 0 { 0x7F } else { 0x40 }, 300000 + 10 * k + j));
+				}
+				variants.push((format!("after_end_x{}", k), v));
+			}
+		}
+		let base_skip = real::read_slp(&self.built.bytes, true, false);
 		for (name, v) in variants {
 			let mut oo = o.clone();
 			// sizes incl. the largest a payload table can declare
@@ -734,6 +749,19 @@ impl<'a> Ctx<'a> {
 					continue;
 				}
 			};
+			// the skip-frames read, whose contract (C10) is limited to files with Game End as the last event: whatever it
+			// returns for the file without the unknown events
+			if self.beh.file_end != "none" && v.last().map_or(false, |e| e.k == "ge") {
+				match (&base_skip, real::read_slp(&with.bytes, true, false)) {
+					(Outcome::Ok(b), Outcome::Ok(w)) => {
+						if b.start.bytes != w.start.bytes || b.end != w.end || b.metadata != w.metadata || b.gecko_codes != w.gecko_codes || b.frames.id.len() != w.frames.id.len() {
+							out.push(viol("unknown_insert_skip", &cls, "mismatch", format!("{}: the skip-frames read differs (start / end / metadata / gecko codes / frame count)", name)));
+						}
+					}
+					(Outcome::Ok(_), o2) => out.push(viol("unknown_insert_skip", &cls, o2.kind(), format!("{}: {}", name, o2.detail()))),
+					_ => {}
+				}
+			}
 			// the same bytes arriving in pieces (the unknown payload is then skipped across several reads)
 			{
 				let frag = if with.bytes.len() % 2 == 0 { crate::stream::Frag::RandomIntr(with.bytes.len() as u64) } else { crate::stream::Frag::Fixed(1 + with.bytes.len() % 6) };
